@@ -432,8 +432,18 @@ def run_C14(tier, seed):
     insts = small_instances(2, 2, 2, (0, 1, 3), True, limit=30 if tier == "quick" else 150, rng=rng)
     for _ in range(40 if tier == "quick" else 300):
         insts.append(random_instance(rng, 4, 4, 4, durations=(0, 1, 2, 5, 9), flexible=rng.random() < 0.5))
+    # the eligible machines of an operation are a LIST: half of the flexible instances list them in a random order
+    for jobs in insts:
+        if rng.random() < 0.5:
+            for job in jobs:
+                for idx, (ms, dur) in enumerate(job):
+                    if len(ms) > 1:
+                        lst = list(ms)
+                        rng.shuffle(lst)
+                        job[idx] = (tuple(lst), dur)
     res.bound = {"instances": "%d instances: shapes <=2x2x2 (sampled) + random <=4 jobs x <=4 ops x <=4 machines, "
-                              "flexible and not, ragged, recirculation, unused machine ids, zero durations (seed %d)"
+                              "flexible (machine lists in ascending and in random order) and not, ragged, recirculation, "
+                              "unused machine ids, zero durations (seed %d)"
                               % (len(insts), seed),
                  "job_sequences": "every per-machine permutation of instances with <=6 operations, sampled beyond"}
     for jobs in insts:
@@ -533,6 +543,11 @@ def run_C14(tier, seed):
             try:
                 s2 = with_timeout(10, Schedule.from_job_sequences, inst, seqs)
                 dd = d.schedule.to_dict()
+                res.count("schedule-dict-describes-the-schedule")
+                if dd.get("job_sequences") != seqs or dd.get("metadata") != d.schedule.metadata \
+                        or dd.get("instance") != inst.to_dict() or sorted(dd) != ["instance", "job_sequences", "metadata"]:
+                    res.breach("schedule-dict-describes-the-schedule", f"job_sequences {dd.get('job_sequences')} for machine "
+                               f"lists {seqs}; keys {sorted(dd)}", jobs=jobs, history=model.history)
                 s3 = with_timeout(10, Schedule.from_dict, **json.loads(json.dumps(dd)))
                 r1 = real_schedule(d)
                 for nm, s in (("from_job_sequences", s2), ("from_dict", s3)):
